@@ -11,9 +11,9 @@ import (
 
 // unitsExempt: functions whose unclassified sinks are understood and not offsets.
 var unitsExempt = map[string]string{
-	"(*column.chunks[T]).Grow":             "the argument is a capacity (highest offset to cover), only its block number is used",
-	"(*column.Collection).findFreeIndex":   "word index derived from the row count, not from an offset",
-	"(*column.Collection).readState$1$1":   "block number is the loop index of the stream reader",
+	"(*column.chunks[T]).Grow":           "the argument is a capacity (highest offset to cover), only its block number is used",
+	"(*column.Collection).findFreeIndex": "word index derived from the row count, not from an offset",
+	"(*column.Collection).readState$1$1": "block number is the loop index of the stream reader",
 }
 
 func (s *Shared) Units() *Units {
